@@ -83,10 +83,14 @@ class Int:
             out.append((self.ehi, 'hi+1'))
         return out
 
-    def render(self, v, rng, isa, pc):
+    def render(self, v, rng, isa, pc, syms=None):
         if self.signed_text:
             return '%+d' % v
-        if v >= 0 and not self.nohex and rng.random() < 0.3:
+        r = rng.random()
+        if syms is not None and not self.nohex and r > 0.85:
+            # the same number through a symbol that was defined (EQU) before its use
+            return syms.setdefault(v, 'kq%d' % len(syms))
+        if v >= 0 and not self.nohex and r < 0.3:
             return isa.hexnum(v)
         return '%d' % v
 
@@ -128,7 +132,7 @@ class Rel:
     def target(self, v, pc):
         return pc + self.off + v * self.scale
 
-    def render(self, v, rng, isa, pc):
+    def render(self, v, rng, isa, pc, syms=None):
         t = self.target(v, pc)
         r = rng.random()
         if r < 0.4:
@@ -158,7 +162,7 @@ class Page(Rel):
     def target(self, v, pc):
         return ((pc + self.off) & ~(self.size - 1)) + v
 
-    def render(self, v, rng, isa, pc):
+    def render(self, v, rng, isa, pc, syms=None):
         t = self.target(v, pc)
         return isa.hexnum(t) if rng.random() < 0.4 else '%d' % t
 
@@ -180,7 +184,7 @@ class Choice:
     def errors(self):
         return [((b, None), 'bad-' + self.name) for b in self.bad]
 
-    def render(self, v, rng, isa, pc):
+    def render(self, v, rng, isa, pc, syms=None):
         t = v[0]
         if rng.random() < 0.3:
             t = t.upper()
@@ -289,7 +293,7 @@ def operand_sets(form, rng, nrand, exhaustive_limit=0):
     return valid, errs
 
 
-def place(lines, isa, rng, start=None, space=None):
+def place(lines, isa, rng, start=None, space=None, syms=None):
     """assign addresses, render the source text and compute the expected units of every line (in order)"""
     pc = isa.ORG if start is None else start
     lo_space, hi_space = space or isa.SPACE
@@ -325,7 +329,7 @@ def place(lines, isa, rng, start=None, space=None):
                 pc -= (pc - lo_pc) % a
                 ln.org = pc
         ln.pc = pc
-        txt = [fl.render(v, rng, isa, pc) for fl, v in zip(f.fields, ln.vals)]
+        txt = [fl.render(v, rng, isa, pc, syms) for fl, v in zip(f.fields, ln.vals)]
         ln.text = f.tmpl.format(*txt)
         if ln.err is None:
             ln.exp = list(f.enc([val_of(fl.target(v, pc) if fl.kind == 'rel' else v) for fl, v in zip(f.fields, ln.vals)], pc))
